@@ -321,6 +321,9 @@ def run(ctx, PROPS, LEVEL):
     xoffs, nsc = sigexec.run(ctx)
     cov["evaluations"] += nsc
     dist["execsig_scenarios"] = nsc
+    dist["execsig_child_stopped_before"] = dict(sigexec.POINTS)
+    ctx.log("exec module on real children: %d scenarios (signal while the forked child is before: %s)" %
+            (nsc, ", ".join("%s x%d" % kv for kv in sorted(sigexec.POINTS.items()))))
     for sig, what, c in xoffs:
         newcount[0] += 1
         ctx.offender(sig, what, c)
